@@ -1,5 +1,6 @@
 import NrDaemon.Lemmas.Proc
 import NrDaemon.Lemmas.Lifecycle
+import NrDaemon.Props.Tied
 /-!
   C03 — application lifecycle follows the collector's verdicts.
   The status classification (`Gen.Status.*`) is regenerated from `collector/client.go` on every run.
@@ -193,3 +194,11 @@ theorem C03_terminal_no_connect (s : PState) (k : String) (app : AppM) (ha : get
   unfold considerConnect
   rw [ha]
   rcases ht with h | h <;> simp [h]
+
+/-- **C03 (tie: the connect gate is the code's).**  The condition under which the model's `considerConnect` starts a
+connect attempt is `App.NeedsConnectAttempt` as translated from app.go on this run, for every state, time and last
+attempt (with the regenerated back-off constant). -/
+theorem C03_connect_gate_tied (st : AState) (now last : Int) :
+    (st == .unknown && decide (now - last ≥ (Gen.Limits.AppConnectAttemptBackoff : Int))) =
+      Gen.Decisions.needsConnectAttempt (Gen.Limits.AppConnectAttemptBackoff : Int) last now st.code :=
+  tied_needsConnectAttempt st now last
